@@ -10,6 +10,7 @@ import (
 	"time"
 
 	"verifharness/hist"
+	"verifharness/term"
 )
 
 func c09w(s string) hist.Obs { return hist.Obs{Kind: "write", Out: s, Writes: 1} }
@@ -371,5 +372,198 @@ func TestC09FirstUseOracleHandMade(t *testing.T) {
 		if p := c09FirstProcs(i); p < 2 || p > 16 {
 			t.Fatalf("GOMAXPROCS %d for process %d", p, i)
 		}
+	}
+}
+
+// c09Aliasing simulates, at the level of histories, a File that KEEPS the caller's map as
+// its hint table: every later ImportName / ImportAlias / ImportNames on such a File is then
+// seen by every other File holding the same object.
+func c09Aliasing(h hist.History) hist.History {
+	owner := map[int]string{}
+	holders := map[string][]int{}
+	extras := map[string]hist.History{}
+	var out hist.History
+	for _, op := range h {
+		out = append(out, op)
+		switch op.Kind {
+		case "importname", "importalias", "importnames":
+			if _, holds := owner[op.F]; !holds && op.Kind == "importnames" && op.MapKey != "" {
+				owner[op.F] = op.MapKey
+				holders[op.MapKey] = append(holders[op.MapKey], op.F)
+				for _, e := range extras[op.MapKey] { // what others wrote into the object before
+					e.F, e.MapKey = op.F, ""
+					out = append(out, e)
+				}
+			} else if k, ok := owner[op.F]; ok {
+				extras[k] = append(extras[k], op)
+				for _, g := range holders[k] {
+					if g != op.F {
+						e := op
+						e.F, e.MapKey = g, ""
+						out = append(out, e)
+					}
+				}
+			}
+		}
+	}
+	return out
+}
+
+// Stream shared-hint-map: accepted on the real implementation; a File that keeps the
+// caller's map (writes of one File show in the others) and an ImportNames that writes to
+// the caller's map are rejected; Files really receive ONE object.
+func TestC09SharedHintMap(t *testing.T) {
+	defer func(old func(hist.History) []hist.Obs) { c09Exec = old }(c09Exec)
+	real := c09Exec
+	p := c09{}
+	r := rand.New(rand.NewSource(6))
+	var cases []*Case
+	nontrivial := 0
+	for i := 0; i < 60; i++ {
+		c := c09SharedMapCase(r, "quick")
+		cases = append(cases, c)
+		if c.NonTrivial {
+			nontrivial++
+		}
+		// one object: the World's table holds exactly the keys "shared" and "second"
+		w := hist.NewWorld()
+		got := w.Exec(c.Hist)
+		if w.Maps.Lookup("shared") == nil || w.Maps.Lookup("second") == nil {
+			t.Fatal("the shared objects were not created")
+		}
+		if d := c09MapsIntact(c.Hist, w.Maps); d != "" {
+			t.Fatalf("unchanged implementation modifies the caller's map: %s", d)
+		}
+		if d := p.Oracle(c, got); d != "" {
+			t.Fatalf("oracle rejects the unchanged implementation: %s\n%s", d, c.Hist.Sexp())
+		}
+		if d := p.Compare(c, got, got); d != "" {
+			t.Fatalf("compare rejects identical observations: %s", d)
+		}
+		if strings.Contains(c.Hist.Sexp(), "shared") {
+			t.Fatal("the MapKey must not reach the model")
+		}
+	}
+	if nontrivial < 45 {
+		t.Fatalf("only %d of 60 cases are non-trivial", nontrivial)
+	}
+
+	// (1) the File keeps the caller's map: the extra hint of File A shows in File B
+	c09Exec = func(h hist.History) []hist.Obs { return real(c09Aliasing(h)) }
+	for _, c := range cases {
+		leaky := c09Exec(c.Hist)
+		d := p.Oracle(c, leaky)
+		visible := c09SameJob(real(c.Hist), leaky) != ""
+		if c.NonTrivial && !visible {
+			t.Fatalf("a non-trivial case does not show the aliasing defect\n%s", c.Hist.Sexp())
+		}
+		if visible && !strings.Contains(d, "built alone") {
+			t.Fatalf("aliasing defect not detected by the alone runs: %q\n%s", d, c.Hist.Sexp())
+		}
+		if !visible && d != "" {
+			t.Fatalf("oracle fails although the simulated defect changed nothing: %s", d)
+		}
+	}
+
+	// (2) the defect is invisible in the run the oracle is given (e.g. it only bites in
+	// another order): still caught, by the shared-object runs
+	c09Exec = func(h hist.History) []hist.Obs {
+		if c09Maps == nil {
+			return real(h)
+		}
+		return real(c09Aliasing(h))
+	}
+	caught := 0
+	for _, c := range cases {
+		if d := p.Oracle(c, real(c.Hist)); strings.Contains(d, "one map object for all Files") {
+			caught++
+		} else if c.NonTrivial {
+			t.Fatalf("aliasing in the shared-object runs only: not detected (%q)", d)
+		}
+	}
+	if caught < 45 {
+		t.Fatalf("aliasing in the shared-object runs detected in only %d of 60 cases", caught)
+	}
+
+	// (3) ImportNames (or a later call) writes to the caller's map, outputs unaffected
+	c09Exec = func(h hist.History) []hist.Obs {
+		obs := real(h)
+		if c09Maps != nil {
+			if m := c09Maps.Lookup("shared"); m != nil {
+				m["verif/written"] = "w"
+			}
+		}
+		return obs
+	}
+	for _, c := range cases[:10] {
+		if d := p.Oracle(c, real(c.Hist)); !strings.Contains(d, "caller's map \"shared\" was modified") {
+			t.Fatalf("write to the caller's map not detected: %q", d)
+		}
+	}
+	// ... or deletes an entry / changes a value
+	c09Exec = func(h hist.History) []hist.Obs {
+		obs := real(h)
+		if c09Maps != nil {
+			if m := c09Maps.Lookup("second"); m != nil {
+				for k := range m {
+					m[k] += "1"
+				}
+			}
+		}
+		return obs
+	}
+	for _, c := range cases[:10] {
+		if d := p.Oracle(c, real(c.Hist)); !strings.Contains(d, "caller's map \"second\" was modified") {
+			t.Fatalf("changed value in the caller's map not detected: %q", d)
+		}
+	}
+	c09Exec = real
+
+	// the generic shrinker keeps the sharing (MapKey travels with the operation)
+	for _, cand := range p.Shrink(cases[0]) {
+		n := 0
+		for _, op := range cand.Hist {
+			if op.MapKey == "shared" {
+				n++
+			}
+		}
+		if n < 2 {
+			t.Fatalf("shrunk candidate lost the shared map: %s", cand.Hist.Sexp())
+		}
+		if d := p.Oracle(cand, hist.NewWorld().Exec(cand.Hist)); d != "" {
+			t.Fatalf("oracle rejects a shrunk candidate on the unchanged implementation: %s", d)
+		}
+	}
+}
+
+// hist: operations with one MapKey hand ONE object to ImportNames, in one World and across
+// Worlds that share a table; without a key every operation makes its own map.
+func TestC09MapKeyObjectIdentity(t *testing.T) {
+	h := hist.History{
+		{Kind: "newfile", F: 0, A: "p"}, {Kind: "newfile", F: 1, A: "p"},
+		{Kind: "importnames", F: 0, Pairs: [][2]string{{"a.b/c", "x"}}, MapKey: "k"},
+		{Kind: "importnames", F: 1, Pairs: [][2]string{{"ignored/later", "y"}}, MapKey: "k"},
+		{Kind: "fadd", F: 1, Code: term.S(term.Named("Var"), term.Id("_"), term.Op("="), term.Qual("a.b/c", "V"))},
+		{Kind: "noformat", F: 1, Flag: true},
+		{Kind: "render", F: 1},
+	}
+	if got, want := h.Sexp(), (hist.History{h[0], h[1], {Kind: "importnames", F: 0, Pairs: h[2].Pairs}, {Kind: "importnames", F: 1, Pairs: h[3].Pairs}, h[4], h[5], h[6]}).Sexp(); got != want {
+		t.Fatalf("Sexp differs from the plain importnames:\n%s\n%s", got, want)
+	}
+	w := hist.NewWorld()
+	obs := w.Exec(h)
+	if len(obs) != 1 || !strings.Contains(obs[0].Out, `import "a.b/c"`) || !strings.Contains(obs[0].Out, "x.V") {
+		t.Fatalf("File 1 did not receive the object made by the first operation: %v", obs)
+	}
+	m := w.Maps.Lookup("k")
+	if len(m) != 1 || m["a.b/c"] != "x" {
+		t.Fatalf("object: %v", m)
+	}
+	w2 := hist.NewWorld()
+	w2.Maps = w.Maps
+	m["a.b/c"] = "z" // the caller changes his map between two uses: visible through the same object
+	obs = w2.Exec(h)
+	if !strings.Contains(obs[0].Out, "z.V") {
+		t.Fatalf("a World sharing the table did not use the same object: %v", obs)
 	}
 }
